@@ -13,6 +13,8 @@ import Complgen.Spec.Warn
 import Complgen.Spec.Complete
 import Complgen.Proofs.SpecAuto
 import Complgen.Proofs.Ladder
+import Complgen.Proofs.LadderFull
+import Complgen.Proofs.Statements
 import Complgen.Gen.Chains
 import Complgen.Gen.Tables
 import Complgen.Gen.Diag
@@ -27,6 +29,47 @@ def dialectOf : String → Option (Quote.Dialect × Quote.Chain)
   | "dotcmd" => some (Quote.dotDialect, Gen.dotRegexCmdChain)
   | "dotlabel" => some (Quote.dotDialect, Gen.dotDfaLabelChain)
   | _ => none
+
+/-! ### seeded layouts for the printers with layout (`Proofs/LadderLayout.lean`, `Proofs/Statements.lean`) -/
+
+/-- stretches that may stand directly after a word (no leading `#`), non-empty -/
+def layMenuW : List String :=
+  [" ", "  ", "\t", "\n", " \n  ", " # a comment\n", "\n# c1\n# c2 | ; (\n", " \x0c ", "\n\x0c\n", " #\n", "\r\n"]
+/-- any stretch, possibly empty or starting with a comment -/
+def layMenu : List String := ["", "", " "] ++ layMenuW ++ ["# x\n", "#\n "]
+
+def layHash (sd : Nat) (path : List Nat) (field : Nat) : Nat :=
+  (path.foldl (fun h x => (h * 1000003 + x + 7) % 2147483647) ((sd * 31 + field) % 2147483647) * 48271) % 2147483647
+
+def pick (menu : List String) (h : Nat) : List Char :=
+  match menu[h % menu.length]? with
+  | some x => x.toList
+  | none => []
+
+def seededLayout (sd : Nat) : Parse.Layout :=
+  { sep := fun p => pick layMenuW (layHash sd p 1)
+    barL := fun p => pick ("" :: layMenuW) (layHash sd p 2)
+    barR := fun p => pick layMenu (layHash sd p 3)
+    opn := fun p => pick layMenu (layHash sd p 4)
+    cls := fun p => pick ("" :: layMenuW) (layHash sd p 5)
+    dots := fun p => pick ("" :: "" :: layMenuW) (layHash sd p 6) }
+
+def seededStmtLayout (sd i : Nat) : Parse.StmtLayout :=
+  { eq := layHash sd [i] 7 % 2 == 0
+    name := pick layMenuW (layHash sd [i] 8)
+    sign := pick layMenu (layHash sd [i] 9)
+    expr := seededLayout (sd * 7919 + i)
+    semi := pick ("" :: layMenuW) (layHash sd [i] 10)
+    next := pick layMenu (layHash sd [i] 11) }
+
+def seededGLayout (sd : Nat) : Parse.GLayout :=
+  { lead := pick layMenu (layHash sd [] 12), stmt := fun i => seededStmtLayout sd i, semi := layHash sd [] 13 % 3 != 0 }
+
+/-- every stretch of the menus is a layout in the sense of the theorems (`IsLayout`, and for the
+word-adjacent positions not starting with `#`): decided once per request -/
+def layoutAdmissible (_sd _n : Nat) : Bool :=
+  layMenu.all (fun x => Parse.layoutOK false x.toList) &&
+  layMenuW.all (fun x => Parse.layoutOK false x.toList && x.toList.head? != some '#' && !x.isEmpty)
 
 /-! ### keyed automata on the wire: `start;acc,acc,…;from,key,to~from,key,to~…` (no blanks) -/
 
@@ -243,6 +286,25 @@ def handle (line : String) : String :=
     match readGrammar (" ".intercalate rest) with
     | some (Stmt.call n _ e :: _) => "ok " ++ Hex.encode (n ++ " " ++ String.ofList (Parse.pp 0 e) ++ ";")
     | _ => "bad-op"
+  | "ppfull" :: rest =>
+    -- the printer of `Proofs/LadderFull.lean` (escapes, descriptions, juxtaposition) on the first call variant
+    match readGrammar (" ".intercalate rest) with
+    | some (Stmt.call n _ e :: _) =>
+      -- second field: does the parser model read the printed text back as `e` (up to spans)?  (true for
+      -- every tree of the fragment by `ladder_roundtrip_full`; false tells the tree is outside it)
+      "ok " ++ Hex.encode (n ++ " " ++ String.ofList (Parse.Full.pp' 0 e) ++ ";") ++
+        (if Parse.Full.readsBack e then " 1" else " 0")
+    | _ => "bad-op"
+  | "ppgram" :: seed :: rest =>
+    -- the printer of `Proofs/Statements.lean` on the whole grammar, under the layout drawn from `seed`
+    -- (0 = the plain printer); the layout is checked to be admissible in the sense of the theorem
+    match seed.toNat?, readGrammar (" ".intercalate rest) with
+    | some sd, some g =>
+      if sd == 0 then "ok " ++ Hex.encode (String.ofList (Parse.ppGrammar g)) else
+      let G := seededGLayout sd
+      if layoutAdmissible sd g.length then "ok " ++ Hex.encode (String.ofList (Parse.ppGrammarL G g))
+      else "bad-layout"
+    | _, _ => "bad-op"
   | ["parse", h] =>
     match Hex.decode h with
     | some src =>
